@@ -47,7 +47,7 @@ ASSUMPTIONS = [
     "tempfile.tempdir is pointed at a harness-owned directory so that the default temporary location is observable",
 ]
 MIN_NONTRIVIAL = {"quick": 400, "thorough": 4000}
-REQUIRED_COUNTERS = {"roundtrip.ok": 40, "fault.audit.fired": 100, "fault.line.fired": 100,
+REQUIRED_COUNTERS = {"concurrent.roundtrips": 100, "roundtrip.ok": 40, "fault.audit.fired": 100, "fault.line.fired": 100,
                      "fault.body": 40, "corrupt.runs": 40, "passthrough.calls": 8,
                      "stdlib.opened": 40}
 SHARD_TIMEOUT = {"quick": 900, "thorough": 7200}
@@ -184,6 +184,7 @@ def run_scenario(rec, sc, fault=None, golden=None):
             with open(target, "wb") as fh:
                 fh.write(previous)
         dtarget = os.path.join(tdir, "explicit_decompressed.tmp") if sc.get("dtarget") else None
+        pre_dtarget = bool(dtarget and sc.get("dtarget_pre"))
         cs = codes()
         fp = None
         tr_args = {}
@@ -217,6 +218,13 @@ def run_scenario(rec, sc, fault=None, golden=None):
                     injected = ("compress", exc)
                 if injected is None and sc["via"] == "suffix":
                     phase = "decompress"
+                    if pre_dtarget:
+                        # the explicit target already exists and is longer than what will be written
+                        # (the harness' own file operation: not part of the observed trace)
+                        trace.paused = True
+                        with open(dtarget, "wb") as fh:
+                            fh.write(b"OLD-CONTENT-" * (len(content) // 6 + 50))
+                        trace.paused = False
                     try:
                         with U.decompress(target, tmpdir=tmparg, target=dtarget) as path:
                             yielded_d = path
@@ -260,6 +268,11 @@ def run_scenario(rec, sc, fault=None, golden=None):
                 rec.violation("debris", case, {"where": name, "left": left[:5],
                                                "after": repr(injected[1]) if injected else "normal exit"})
         allowed = {os.path.basename(target)}
+        if pre_dtarget and os.path.exists(dtarget):
+            with open(dtarget, "rb") as fh:
+                if fh.read() == b"OLD-CONTENT-" * (len(content) // 6 + 50):
+                    # typhon never got as far as opening the pre-existing explicit target
+                    allowed.add(os.path.basename(dtarget))
         extra = [n for n in os.listdir(tdir) if n not in allowed]
         if extra:
             rec.violation("debris", case, {"where": "target directory", "left": extra[:5],
@@ -417,6 +430,72 @@ def corrupt_cases(rec, rng, fmt, n):
         shutil.rmtree(root, ignore_errors=True)
 
 
+def concurrent_case(rec, rng, fmt):
+    """Several threads compress and decompress different contents at the same time (as the parallel
+    workers of FileSet.map / move do); every thread must read back exactly its own bytes."""
+    import threading
+    import typhon.files.utils as U
+    root = scratch_dir("c12t")
+    old_tmp = tempfile.tempdir
+    try:
+        systmp = os.path.join(root, "systmp")
+        os.mkdir(systmp)
+        tempfile.tempdir = systmp
+        nthreads = 4
+        contents = [rng_for(rng.randrange(10 ** 6), "cc", k).randbytes(rng.choice([70000, 400000, 1500000]))
+                    for k in range(nthreads)]
+        errors = []
+        barrier = threading.Barrier(nthreads)
+
+        def work(k):
+            try:
+                for it in range(6):
+                    target = os.path.join(root, "t%d_%d.%s" % (k, it, fmt))
+                    barrier.wait(timeout=60)
+                    with U.compress(target) as tf:
+                        with open(tf, "wb") as fh:
+                            fh.write(contents[k])
+                    barrier.wait(timeout=60)
+                    with U.decompress(target) as path:
+                        with open(path, "rb") as fh:
+                            back = fh.read()
+                    if back != contents[k]:
+                        errors.append({"thread": k, "iteration": it, "len": [len(back), len(contents[k])],
+                                       "first_diff": next((i for i, (a, b) in enumerate(zip(back, contents[k]))
+                                                           if a != b), None)})
+                        return
+                    if stdlib_read(target, fmt) != contents[k]:
+                        errors.append({"thread": k, "iteration": it, "why": "stored archive holds other bytes"})
+                        return
+            except threading.BrokenBarrierError:
+                pass
+            except Exception as exc:
+                errors.append({"thread": k, "exception": repr(exc)})
+                try:
+                    barrier.abort()
+                except Exception:
+                    pass
+        ths = [threading.Thread(target=work, args=(k,)) for k in range(nthreads)]
+        for t in ths:
+            t.start()
+        for t in ths:
+            t.join(300)
+        rec.ev(nthreads * 6)
+        rec.count("concurrent.roundtrips", nthreads * 6)
+        case = {"kind": "concurrent", "fmt": fmt}
+        if errors:
+            rec.violation("roundtrip", case, {"why": "concurrent compress/decompress returned other bytes",
+                                              "errors": errors[:3]})
+        left = audit.snapshot(systmp)
+        if left:
+            rec.violation("debris", case, {"where": "default tmpdir after concurrent use", "left": left[:4]})
+        if not errors:
+            rec.nontriv(["concurrent", fmt], [fmt, len(contents[0])])
+    finally:
+        tempfile.tempdir = old_tmp
+        shutil.rmtree(root, ignore_errors=True)
+
+
 def gen_scenarios(rng, fmt, n):
     out = []
     for _ in range(n):
@@ -424,7 +503,8 @@ def gen_scenarios(rng, fmt, n):
                     "content": rng.choice(CONTENTS), "cseed": rng.randrange(10 ** 6),
                     "name": rng.choice(["plain", "dots", "space"]),
                     "tmpdir": rng.choice(["explicit", "default"]),
-                    "pre": rng.random() < 0.4, "dtarget": rng.random() < 0.3})
+                    "pre": rng.random() < 0.4, "dtarget": rng.random() < 0.3,
+                    "dtarget_pre": rng.random() < 0.5})
     return out
 
 
@@ -462,17 +542,21 @@ def run_shard(spec, rec):
     fixed = [{"fmt": fmt, "via": "suffix" if (i + spec["part"]) % 3 else "fmt", "content": c,
               "cseed": spec["seed"] * 100 + i, "name": ["plain", "dots", "space"][(i + spec["part"]) % 3],
               "tmpdir": ["explicit", "default"][(i + spec["part"]) % 2], "pre": bool(i % 2),
-              "dtarget": i % 3 == 0}
+              "dtarget": i % 3 == 0, "dtarget_pre": i % 2 == 0}
              for i, c in enumerate(CONTENTS) if i % 4 == spec["part"]]
     for sc in fixed + gen_scenarios(rng, fmt, spec["n"]):
         enumerate_faults(rec, sc)
     passthrough_case(rec, rng)
     corrupt_cases(rec, rng, fmt, 6 if spec["n"] <= 3 else 40)
+    for _ in range(1 if spec["n"] <= 3 else 10):
+        concurrent_case(rec, rng, fmt)
 
 
 def replay(case, rec):
     if case.get("kind") == "scenario":
         run_scenario(rec, case["sc"], case.get("fault"))
+    elif case.get("kind") == "concurrent":
+        concurrent_case(rec, rng_for(0, "r"), case["fmt"])
     elif case.get("kind") == "corrupt":
         corrupt_cases(rec, rng_for(0, "r"), case["fmt"], 10)
     else:
